@@ -31,6 +31,10 @@ def bounded(draw, base):
   case = draw(base)
   case['max_cache_size'] = draw(st.sampled_from(SIZES + [1, 2, 3]))
   case['flow'] = draw(st.booleans())
+  # where carbon.conf states the two options: [cache], or overridden (both / one of them) in [cache:a]
+  layout = draw(st.sampled_from(['plain', 'plain', 'plain', 'inst', 'inst-flow', 'inst-size']))
+  if layout != 'plain':
+    case['conf_layout'] = layout
   return case
 
 
@@ -64,7 +68,7 @@ def invariants(case, hard, bad):
 
 def execute(ctx, case):
   b = env.bootstrap()
-  mcs, hard_derived, low = cachesim.derived_limits(case['max_cache_size'], case['flow'])
+  mcs, hard_derived, low = cachesim.derived_limits(case['max_cache_size'], case['flow'], case.get('conf_layout', 'plain'))
   # the limit the property states: MAX_CACHE_SIZE, or 105% of it under flow control
   want = fractions.Fraction(case['max_cache_size']) * (fractions.Fraction(105, 100) if case['flow'] else 1)
   if abs(fractions.Fraction(hard_derived) - want) > fractions.Fraction(1, 10**6) or mcs != case['max_cache_size']:
@@ -140,7 +144,8 @@ def execute(ctx, case):
         size += 1
     elif o.op == 'drain' and o.result and o.result[0] is not None:
       size -= len(state.pop(o.result[0], {}))
-  classes = [case['strategy'], 'flow' if case['flow'] else 'noflow', 'max=%d' % case['max_cache_size']]
+  classes = [case['strategy'], 'flow' if case['flow'] else 'noflow', 'max=%d' % case['max_cache_size'],
+             'carbon.conf layout: %s' % case.get('conf_layout', 'plain')]
   if refused:
     classes.append('refusal')
   if dup_full:
